@@ -175,16 +175,37 @@ def large_matrices():
                 mat[i][j] = 0
             out.append((mat, True))
             out.append(([[-x for x in row] for row in mat], False))
+    # ramps max(0, j - i): the diagonal costs 0, every assignment costs >= 0; inserting row k displaces a chain of k rows, so
+    # one augmenting search walks through every column already matched (searches of 17-30 steps)
+    for n, m in ((17, 17), (20, 20), (30, 30), (18, 21)):
+        ramp = [[max(0, j - i) for j in range(m)] for i in range(n)]
+        out.append((ramp, True))
+        out.append(([[-x for x in row] for row in ramp], False))
+        out.append(([[0.375 * x for x in row] for row in ramp], True))
+    return out
+
+
+def product_matrices():
+    """(matrix, minimize, optimum): c[i][j] = (i+1)(j+1) with more columns than rows - all rows agree on which columns are
+    good; by the rearrangement inequality the minimum pairs the largest row factors with the smallest column factors
+    (columns 1..rows), the maximum pairs them with the largest columns in the same order"""
+    out = []
+    for n, m in ((9, 10), (9, 12), (9, 15), (11, 16), (12, 31), (20, 40)):
+        mat = [[(i + 1) * (j + 1) for j in range(m)] for i in range(n)]
+        lo = sum((i + 1) * (n - i) for i in range(n))
+        hi = sum((i + 1) * (m - n + i + 1) for i in range(n))
+        out.append((mat, True, lo))
+        out.append((mat, False, hi))
     return out
 
 
 def _large_chunk(params, lo, hi):
     from solvor.hungarian import solve_hungarian
 
-    cases = large_matrices()
+    cases = [c + (0,) for c in large_matrices()] + product_matrices()
     r = new_result()
     for idx in range(lo, hi):
-        mat, minimize = cases[idx]
+        mat, minimize, want = cases[idx]
         rows, cols = len(mat), len(mat[0])
         wit = {"cost_matrix": mat, "minimize": minimize, "large": True}
         r["n"] += 1
@@ -201,8 +222,8 @@ def _large_chunk(params, lo, hi):
             r["violations"].append(viol("solve_hungarian", "pair_count", wit, f"solve_hungarian on {mat}: assignment {a} is not a matching of size {min(rows, cols)}"))
             continue
         tot = sum(mat[i][a[i]] for i in range(rows) if a[i] != -1)
-        if tot != 0 or abs(res.objective) > 1e-9:
-            r["violations"].append(viol("solve_hungarian", "not_optimal", wit, f"solve_hungarian on {mat}, minimize={minimize}: assignment {a} totals {tot} (objective {res.objective}), the planted matching totals 0"))
+        if tot != want or abs(res.objective - want) > 1e-9:
+            r["violations"].append(viol("solve_hungarian", "not_optimal", wit, f"solve_hungarian on the {rows}x{cols} matrix {str(mat)[:120]}..., minimize={minimize}: assignment {a} totals {tot} (objective {res.objective}), the optimum known by construction is {want}"))
         if not r["samples"]:
             r["samples"].append({"rows": rows, "cols": cols})
     return r
@@ -219,7 +240,7 @@ def jobs(tier, seed):
     for rc in ((2, 3), (3, 2), (2, 4), (4, 2)):
         js.append(_job(*rc, A4))
     js.append(_job(4, 4, A2))
-    js.append(Job("large_planted", len(large_matrices()), _large_chunk, None, chunk=1, describe="1x11 ... 24x24 matrices with a planted optimal matching (value 0), minimise and maximise"))
+    js.append(Job("large_planted", len(large_matrices()) + len(product_matrices()), _large_chunk, None, chunk=1, describe="1x11 ... 24x24 matrices with a planted optimal matching (value 0), ramps max(0, j-i) up to 30x30 (augmenting searches of 17-30 steps), product matrices (i+1)(j+1) with 9-20 rows and more columns (optimum by the rearrangement inequality); minimise and maximise"))
     for rc in ((2, 2), (2, 3), (3, 2), (3, 3)):
         js.append(_job(*rc, TINY, f"{rc[0]}x{rc[1]}_over_0_2^-40_1"))
     # costs far from zero with a small spread (every entry much larger than the differences between entries)
